@@ -240,6 +240,8 @@ def qcurve_none(ctx, repo):
             apart = []
             tested = False
             elemvars = set()
+            # local aliases of the last element (lastPt = pts[-1])
+            lastvars = {n.targets[0].id for n in walk_no_nested(f.node) if isinstance(n, ast.Assign) and isinstance(n.targets[0], ast.Name) and isinstance(n.value, ast.Subscript) and isinstance(n.value.value, ast.Name) and n.value.value.id in carriers and norm(n.value.slice) == "-1"}
             for n in walk_no_nested(f.node):
                 it = None
                 if isinstance(n, ast.For):
@@ -274,7 +276,7 @@ def qcurve_none(ctx, repo):
                     l = n.left
                     if isinstance(l, ast.Subscript) and isinstance(l.value, ast.Name) and l.value.id in carriers and norm(l.slice) == "-1":
                         tested = True
-                    if isinstance(l, ast.Name) and l.id in elemvars:
+                    if isinstance(l, ast.Name) and (l.id in elemvars or l.id in lastvars):
                         tested = True
             if not apart:
                 continue
